@@ -1,27 +1,56 @@
-"""C01: API-level bignum units (value contracts in wide bit-vectors)."""
-
-BN_LOW = ['src/low/easy/relic_bn_add_low.c', 'src/low/easy/relic_bn_shift_low.c']
-BN_CORE = ['src/bn/relic_bn_mem.c', 'src/bn/relic_bn_cmp.c', 'src/bn/relic_bn_util.c', 'src/dv/relic_dv_util.c', 'src/relic_util.c']
+"""C01: API-level bignum units.  Value contracts in wide bit-vectors; callees replaced by their contracts (modular)."""
 import os
 CONF = os.environ.get('VERIF_BN_CONF', 'w8')
-N = {'w8': 13, 'p128': 9, 'base': 37, 'p256': 13}[CONF]
-# unwinding bound: RLC_BN_SIZE + 3 (vc_val runs RLC_BN_SIZE+2 times)
+N = {'w8': 13, 'p128': 9, 'base': 37, 'p256': 13}[CONF]   # unwinding bound >= RLC_BN_SIZE + 3 (vc_val runs RLC_BN_SIZE+2 times)
 
 S3 = [('none', 'VC_S3_NONE'), ('ca', 'VC_S3_CA'), ('cb', 'VC_S3_CB'), ('ab', 'VC_S3_AB'), ('cab', 'VC_S3_CAB')]
+S2 = [('none', 'VC_S2_NONE'), ('ca', 'VC_S2_CA')]
+S1 = [('x', None)]
+HDR = ['bn_low.h', 'bn_api.h']
+BOUND = ('loops unwound to RLC_BN_SIZE+3 with unwinding assertions in configuration %s: exhaustive for every operand length '
+         'an AUTO-allocated bn_t of that configuration can hold' % CONF)
 
 
 def register(add):
-    for f in ('bn_add', 'bn_sub'):
-        for sh, mac in S3:
-            add('%s.%s' % (f, sh), ['C01', 'C08'], f, sources=['src/bn/relic_bn_add.c'] + BN_CORE + BN_LOW,
-                headers=['bn_low.h', 'bn_api.h'], replace=['dv_copy'], defines=['VC_SHAPE_%s=%s' % (f, mac)], decls='bn_st *c, *a, *b;', call='%s(c, a, b)' % f,
-                route='bounded', unwind=N, conf=CONF, bound_note='all loops unwound to RLC_BN_SIZE+2=36 iterations with unwinding assertions: '
-                'exhaustive for every operand length the AUTO-allocated bn_t can hold', timeout=300,
-                note='callees inlined (bn_cmp_abs, dv_cmp, bn_addn/add1/subn/sub1_low, bn_grow, bn_trim, bn_copy)')
-
-    LOWC = ['bn_addn_low', 'bn_add1_low', 'bn_subn_low', 'bn_sub1_low', 'dv_cmp', 'dv_copy']
-    for sh, mac in S3:
-        add('bn_add_imp.%s' % sh, ['C01', 'C08'], 'bn_add_imp', sources=['src/bn/relic_bn_add.c'],
-            headers=['bn_low.h', 'bn_api.h'], defines=['VC_WITH_BN_ADD_STATICS', 'VC_SHAPE_bn_add_imp=%s' % mac],
-            replace=['bn_addn_low', 'bn_add1_low', 'bn_grow', 'bn_trim', 'bn_copy'],
-            decls='bn_st *c, *a, *b;', call='bn_add_imp(c, a, b)', route='proof', unwind=N, conf=CONF, timeout=150)
+    def api(f, src, decls, call, shapes, replace, props=('C01', 'C08'), defs=(), **kw):
+        for sh, mac in shapes:
+            d = list(defs) + (['VC_SHAPE_%s=%s' % (f, mac)] if mac else [])
+            add('%s.%s' % (f, sh) if mac else f, list(props), f, sources=[src], headers=HDR, defines=d, decls=decls, call=call,
+                replace=list(replace), route='proof', unwind=N, conf=CONF, timeout=kw.pop('timeout', 300),
+                bound_note=BOUND, **kw)
+    MEM, UTIL, CMP, ADDC, SHIFT = ('src/bn/relic_bn_mem.c', 'src/bn/relic_bn_util.c', 'src/bn/relic_bn_cmp.c',
+                                   'src/bn/relic_bn_add.c', 'src/bn/relic_bn_shift.c')
+    D3, D2 = 'bn_st *c, *a, *b;', 'bn_st *c, *a;'
+    # memory / normal form
+    api('bn_trim', MEM, 'bn_st *a;', 'bn_trim(a)', S1, [])
+    api('bn_grow', MEM, 'bn_st *a; size_t d;', 'bn_grow(a, d)', S1, [])
+    api('bn_copy', UTIL, D2, 'bn_copy(c, a)', S2, ['bn_grow', 'dv_copy', 'bn_trim'])
+    api('bn_abs', UTIL, D2, 'bn_abs(c, a)', S2, ['bn_copy'])
+    api('bn_neg', UTIL, D2, 'bn_neg(c, a)', S2, ['bn_copy', 'bn_is_zero'])
+    api('bn_zero', UTIL, 'bn_st *a;', 'bn_zero(a)', S1, ['dv_zero'])
+    api('bn_set_dig', UTIL, 'bn_st *a; dig_t d;', 'bn_set_dig(a, d)', S1, ['bn_zero'])
+    api('bn_set_2b', UTIL, 'bn_st *a; size_t b;', 'bn_set_2b(a, b)', S1, ['bn_grow'])
+    api('bn_sign', UTIL, 'bn_st *a;', 'bn_sign(a)', S1, [])
+    api('bn_is_zero', UTIL, 'bn_st *a;', 'bn_is_zero(a)', S1, [])
+    api('bn_is_even', UTIL, 'bn_st *a;', 'bn_is_even(a)', S1, ['bn_is_zero'])
+    api('bn_bits', UTIL, 'bn_st *a;', 'bn_bits(a)', S1, ['bn_is_zero', 'util_bits_dig'])
+    if CONF == 'w8':
+        api('util_bits_dig', 'src/relic_util.c', 'dig_t a;', 'util_bits_dig(a)', S1, [], sources_extra=['src/arch/relic_arch_none.c'])
+    api('bn_get_bit', UTIL, 'bn_st *a; uint_t bit;', 'bn_get_bit(a, bit)', S1, ['bn_bits'])
+    # comparison
+    api('bn_cmp_abs', CMP, 'bn_st *a, *b;', 'bn_cmp_abs(a, b)', [('none', None), ], ['bn_is_zero', 'dv_cmp'])
+    api('bn_cmp_dig', CMP, 'bn_st *a; dig_t b;', 'bn_cmp_dig(a, b)', S1, [])
+    api('bn_cmp', CMP, 'bn_st *a, *b;', 'bn_cmp(a, b)', S1, ['bn_is_zero', 'bn_cmp_abs'])
+    # addition / subtraction
+    ST = ['VC_WITH_BN_ADD_STATICS']
+    api('bn_add_imp', ADDC, D3, 'bn_add_imp(c, a, b)', S3, ['bn_addn_low', 'bn_add1_low', 'bn_grow', 'bn_trim', 'bn_copy'], defs=ST)
+    api('bn_sub_imp', ADDC, D3, 'bn_sub_imp(c, a, b)', S3, ['bn_subn_low', 'bn_sub1_low', 'bn_grow', 'bn_trim', 'bn_copy'], defs=ST)
+    api('bn_add', ADDC, D3, 'bn_add(c, a, b)', S3, ['bn_add_imp', 'bn_sub_imp', 'bn_cmp_abs'], defs=ST)
+    api('bn_sub', ADDC, D3, 'bn_sub(c, a, b)', S3, ['bn_add_imp', 'bn_sub_imp', 'bn_cmp_abs'], defs=ST)
+    api('bn_add_dig', ADDC, 'bn_st *c, *a; dig_t b;', 'bn_add_dig(c, a, b)', S2, ['bn_add1_low', 'bn_sub1_low', 'bn_grow', 'bn_trim'], defs=ST)
+    api('bn_sub_dig', ADDC, 'bn_st *c, *a; dig_t b;', 'bn_sub_dig(c, a, b)', S2, ['bn_add1_low', 'bn_sub1_low', 'bn_grow', 'bn_trim'], defs=ST)
+    # shifts
+    api('bn_dbl', SHIFT, D2, 'bn_dbl(c, a)', S2, ['bn_grow', 'bn_lsh1_low'])
+    api('bn_hlv', SHIFT, D2, 'bn_hlv(c, a)', S2, ['bn_copy', 'bn_rsh1_low', 'bn_trim'])
+    api('bn_lsh', SHIFT, 'bn_st *c, *a; uint_t bits;', 'bn_lsh(c, a, bits)', S2, ['bn_grow', 'dv_lshd', 'dv_copy', 'bn_lshb_low', 'bn_trim'])
+    api('bn_rsh', SHIFT, 'bn_st *c, *a; uint_t bits;', 'bn_rsh(c, a, bits)', S2, ['bn_grow', 'dv_rshd', 'dv_copy', 'bn_rshb_low', 'bn_trim'])
